@@ -14,6 +14,11 @@ if os.path.exists(nf):
 hooks_commits = []
 hf = os.path.join(ROOT, "props", "hooks.json")
 hooks = json.load(open(hf)) if os.path.exists(hf) else {}
+try:
+    out = subprocess.run(["git", "-C", "/repo", "log", "--format=%H %s", "454af79..HEAD"], capture_output=True, text=True).stdout
+    hooks["source_commits"] = [l.split()[0] for l in out.splitlines() if l.split(" ", 1)[1].startswith("hook:")][::-1]
+except Exception:
+    pass
 checks, na = [], []
 for q in allp:
     pid = q["id"]
